@@ -11,8 +11,8 @@ from .common import (E1_ASSUMPTIONS, E1_COMPONENTS, build_config, created_under,
 ID = "C15"
 LEVEL = "exploration"
 TIERS = {
-    "quick": {"shards": 64, "examples": 14, "det_shards": 2},
-    "thorough": {"shards": 640, "examples": 40, "det_shards": 8},
+    "quick": {"shards": 128, "examples": 24, "det_shards": 2},
+    "thorough": {"shards": 1024, "examples": 60, "det_shards": 8},
 }
 RULE = ("case = (world, variant) where a world is a generated tree + pattern set + placement and a variant is one "
         "listing schedule (seeded key and/or explicit per-directory permutation) with one assignment of each pattern "
@@ -62,7 +62,7 @@ def strategy(cfg):
             else:
                 cand = None
         pats = gen.draw_patterns(draw, site, max_patterns=cfg["max_patterns"], allow_abs=cfg["allow_abs"],
-                                 allow_root=cfg["allow_root"])
+                                 allow_root=cfg["allow_root"], allow_ancestor_hits=cfg["collide_ancestor"])
         if cand is not None:
             form = draw(st.sampled_from([cand, "**/" + cand]))
             if form not in pats:
